@@ -20,6 +20,8 @@ import (
 
 // retCase: one handler returning values of one supported shape, somewhere in a chain (C14).
 type retCase struct {
+	Env      string `json:"env,omitempty"`                          // process environment while the case runs (the runner sets it per phase): the table does not depend on it
+	Battery  bool   `json:"built_in_middleware_in_front,omitempty"` // Logger, Recovery and Renderer are installed ahead of everything: a returned value is rendered by the same table
 	Shape    string `json:"shape"`
 	Int      int    `json:"int,omitempty"`
 	Str      core.B `json:"str,omitempty"`
@@ -524,7 +526,15 @@ func judgeRet(w *core.W, c *retCase) {
 		return outV
 	}).Interface()
 
+	if c.Env != "" && string(flamego.Env()) != c.Env {
+		defer flamego.SetEnv(flamego.Env())
+		flamego.SetEnv(flamego.EnvType(c.Env)) // (replay; in a run the phase has set it)
+	}
 	f := flamego.NewWithLogger(io.Discard)
+	if c.Battery {
+		f.Use(flamego.Logger(), flamego.Recovery(), flamego.Renderer())
+		w.Count("built-in-middleware-in-front:" + c.Env)
+	}
 	if c.PreWrite {
 		f.Use(func(ctx flamego.Context) { preW = ctx.ResponseWriter() })
 	}
@@ -728,11 +738,19 @@ func runC14(r *core.Run) {
 	r.Assume("non-nil zero-length values ([]byte{}, pointer to \"\") are observed but not judged (DESIGN §6)")
 	c14Canaries(r)
 	n := r.N(100000, 5000000)
-	r.Parallel("ret", n, func(w *core.W, rng *rand.Rand, i int) {
-		c := genRetCase(rng)
-		w.Begin("ret", c)
-		judgeRet(w, c)
-	})
+	orig := flamego.Env()
+	defer flamego.SetEnv(orig)
+	for _, env := range []string{"development", "production", "test"} {
+		env := env
+		flamego.SetEnv(flamego.EnvType(env)) // the environment is process-global: one phase per environment
+		r.Parallel("ret-"+env, n/3, func(w *core.W, rng *rand.Rand, i int) {
+			c := genRetCase(rng)
+			c.Env, c.Battery = env, rng.Intn(3) == 0
+			w.Begin("ret", c)
+			judgeRet(w, c)
+		})
+	}
+	flamego.SetEnv(orig)
 	// every status code 100..599 through every (int, …) shape, fast path and reflective
 	r.Parallel("status-sweep", 900, func(w *core.W, rng *rand.Rand, i int) {
 		for _, shape := range []string{"int,string", "int,bytes", "int,error"} {
@@ -755,7 +773,7 @@ func runC14(r *core.Run) {
 		}
 		r.GateCounter("class:"+s+"/non-empty", 50)
 	}
-	for _, k := range []string{"class:string/zero", "class:named/zero", "class:bytes/nil", "class:*string/nil", "class:*bytes/nil", "class:iface/nil", "class:error/error", "class:error/zero", "class:int,error/error", "class:string,error/error", "class:bytes,error/error", "class:int,string/zero", "class:int,bytes/nil", "path:fast", "path:reflective", "custom:app", "custom:request", "custom:request-late", "silent-handlers-returned-values", "method:HEAD", "method:GET", "request-cancelled-by-returning-handler", "standard-library-error-value-returned", "handler-wrote-before-returning", "out-of-table-shape-with-custom-return-handler", "status>=600", "plain-writer-mapped-by-middleware", "custom:self"} {
+	for _, k := range []string{"class:string/zero", "class:named/zero", "class:bytes/nil", "class:*string/nil", "class:*bytes/nil", "class:iface/nil", "class:error/error", "class:error/zero", "class:int,error/error", "class:string,error/error", "class:bytes,error/error", "class:int,string/zero", "class:int,bytes/nil", "path:fast", "path:reflective", "custom:app", "custom:request", "custom:request-late", "silent-handlers-returned-values", "method:HEAD", "method:GET", "request-cancelled-by-returning-handler", "standard-library-error-value-returned", "handler-wrote-before-returning", "out-of-table-shape-with-custom-return-handler", "status>=600", "plain-writer-mapped-by-middleware", "custom:self", "built-in-middleware-in-front:development", "built-in-middleware-in-front:production", "built-in-middleware-in-front:test"} {
 		r.GateCounter(k, 50)
 	}
 	r.Gate("distinct_nontrivial", r.NonTrivialCount(), 2000)
